@@ -4,6 +4,7 @@
  *   republish <k> <seed>    previous content of the target region: T0 = A, T1 = a bigger copy of A; reference images in fresh files, then every
  *                           pre-fill (zeros, 0xFF, 0x5A, random, XML text) x {T0,T1}, then T1,T0,T0,T1,T1,T0 on one file at the same offset/address:
  *     rewrite <label> rc=..|SIG<n> / image <label> same|DIFF off= got= want= / readopt <label> obscmp same|DIFF..|SIG<n>|rc=-1:ERR
+ *   sweep <first> <count> [op]  (op applied at every step, '@' = the set {PU#step})
  *   sweep <first> <count>   for i in first..first+count-1: root info "hwvpad" of 7+8i bytes, then the length/write/file part of "shmem 0"
  *   shmem <k>       store A in a file at offset k pages, adopt it in a forked child, exercise the adopted copy:
  *     length rc= len=                    hwloc_shmem_topology_get_length
@@ -308,6 +309,7 @@ static void do_shmem(hwloc_topology_t A, unsigned k, int full)
   w.t = A; w.fd = fd; w.off = off; w.addr = region; w.len = len;
   st = in_child(do_write, &w);
   if (st < 0) printf("write SIG%d\n", -st);
+  else if (st > 0) printf("write EXIT%d\n", st);       /* abort() / sanitizer exit inside the writer */
   { struct fc c; c.fd = fd; c.off = off; c.len = len; c.used = used; c.pagesz = pagesz; in_child(check_file, &c); }   /* in a child: no allocation may land in the freed range */
   ORIG = A; d.fd = fd; d.off = off; d.addr = region; d.len = len; d.pagesz = pagesz;
   if (full) {
@@ -392,6 +394,7 @@ static unsigned char *write_and_compare(hwloc_topology_t T, int fd, size_t off, 
   r.w.t = T; r.w.fd = fd; r.w.off = off; r.w.addr = region; r.w.len = len; r.label = label;
   st = in_child(do_rewrite, &r);
   if (st < 0) printf("rewrite %s SIG%d\n", label, -st);
+  else if (st > 0) printf("rewrite %s EXIT%d\n", label, st);
   memset(img, 0, len); pread(fd, img, len, (off_t)off);
   if (ref) {
     for (i = 0; i < len; i++) {
@@ -478,13 +481,20 @@ int main(void)
     } else if (!strncmp(line, "sweep ", 6)) {
       /* size sweep: the value of a root info grows 8 bytes at a time, so that (header + body) visits every 8-byte residue of the
          page; per size: get_length, the logged requests, the write next to the PROT_NONE page, the file check (no adoption) */
-      unsigned first = 0, count = 0, i2;
-      if (!loaded || sscanf(line + 6, "%u %u", &first, &count) != 2) printf("sweep bad\n");
+      unsigned first = 0, count = 0, i2; int used_ = 0; const char *opt;
+      if (!loaded || sscanf(line + 6, "%u %u%n", &first, &count, &used_) < 2) printf("sweep bad\n");
       else for (i2 = first; i2 < first + count; i2++) {
         size_t l = 7 + 8 * (size_t)i2; char *v = malloc(l + 1);
         memset(v, 'x', l); v[l] = 0;
         hwloc_modify_infos(&hwloc_get_root_obj(A)->infos, HWLOC_MODIFY_INFOS_OP_REPLACE, "hwvpad", v);
         free(v);
+        opt = line + 6 + used_; while (*opt == ' ') opt++;
+        if (*opt) {      /* an op applied at every step, '@' = the set {PU#step} (e.g. a fresh, not yet refreshed memattr initiator) */
+          char ob[4400], hex[160]; size_t o = 0; const char *q; int hh; unsigned nd = i2 / 4 + 1, k2;
+          hex[0] = "1248"[i2 % 4]; for (k2 = 1; k2 < nd && k2 < 150; k2++) hex[k2] = '0'; hex[k2] = 0;
+          for (q = opt; *q && o < 4200; q++) { if (*q == '@') { o += (size_t)snprintf(ob + o, sizeof ob - o, "0:%s", hex); } else ob[o++] = *q; }
+          ob[o] = 0; apply_op(A, ob, &hh);
+        }
         printf("sweep step=%u\n", i2);
         do_shmem(A, 0, 0);
       }
